@@ -81,6 +81,9 @@ pub enum Error<'a> {
 
     /// Input contains an invalid character (like a non-ASCII character)
     InvalidCharacter { char: Str<'a> },
+
+    /// An integer is outside (-2^31, 2^31), or a dimension is outside TeX's range.
+    NumberOutOfRange { number: Str<'a> },
 }
 
 impl<'a> Error<'a> {
@@ -118,6 +121,7 @@ impl<'a> Error<'a> {
             MultipleDecimalPoints { .. } => "A number has multiple decimal points".into(),
             NumberWithoutUnits { .. } => "No units were provided for this number".into(),
             InvalidCharacter { .. } => "Invalid character in the input".into(),
+            NumberOutOfRange { .. } => "This number is too large".into(),
         }
     }
     pub fn labels(&self) -> Vec<ErrorLabel> {
@@ -279,6 +283,12 @@ MultipleDecimalPoints { point } => vec![
     },
 
             ],
+            NumberOutOfRange { number } => vec![
+                ErrorLabel {
+                    span: number.span(),
+                    text: "integers are in the range (-2^31,2^31) and dimensions are less than 16384pt".into(),
+                },
+            ],
         }
     }
     pub fn notes(&self) -> Vec<String> {
@@ -311,7 +321,8 @@ MultipleDecimalPoints { point } => vec![
             | InvalidDimensionUnit { .. }
             | MultipleDecimalPoints { .. }
             | NumberWithoutUnits { .. }
-            | InvalidCharacter { .. } => vec![],
+            | InvalidCharacter { .. }
+            | NumberOutOfRange { .. } => vec![],
         }
     }
 }
